@@ -1,5 +1,6 @@
 import TF.Proofs.MmrMember
 import TF.Proofs.MmrNodeIndex
+import TF.Proofs.MmrBatchMutate
 /-!
 # C05 â€” MMR membership proofs stay exact through every history; verification exact
 
@@ -352,5 +353,20 @@ theorem direct_path_indices_exact (i len : Nat) (hi : i < 2 ^ 63) (hlen : len â‰
     (h : nodeIdx len (i / 2 ^ len) < 2 ^ 64) :
     TF.Model.Mmr.get_direct_path_indices i len = some ((List.range (len + 1)).map (fun t => nodeIdx t (i / 2 ^ t))) :=
   get_direct_path_indices_spec i len hi hlen h
+
+/-! ## the batch mutation routine of the accumulator (proved in full, `TF/Proofs/MmrBatchMutate.lean`) -/
+
+/-- **`MmrAccumulator::batch_mutate_leaf_and_update_mps`** (`batch_mutate_leaf_and_update_mps_spec_statement`, proved):
+    on the from-scratch accumulator of `n < 2^63` leaves, for any batch of mutations of distinct in-range leafs in any
+    order, each carrying the from-scratch path it had *before* the batch, and any in-range tracked leafs with their
+    from-scratch paths, the routine does not panic, the accumulator becomes the from-scratch accumulator of the mutated
+    leaf list, every tracked path becomes the from-scratch path of its leaf in the mutated list (hence verifies, by
+    `verify_accepts_auth_path`), and the reported indices are exactly the tracked proofs whose digests changed.
+    (Invariant of the loop: the map `new_ap_digests` holds, for every non-peak ancestor block of an already mutated
+    leaf, that block's root in the current leaf list, and nothing else.) -/
+theorem batch_mutate_leaf_and_update_mps_spec : batch_mutate_leaf_and_update_mps_spec_statement := by
+  intro D _ H g n ms lis hlis hms hnd hn
+  exact batchMutateLeafAndUpdateMps_spec H g n ms lis hlis hms hnd hn
+example : ([(0, 7), (2, 9)] : List (Nat Ã— Nat)).map (Â·.1) |>.Nodup := by decide
 
 end TF.C05
